@@ -139,14 +139,15 @@ def oracle_factory(ctx):
 # ---------------------------------------------------------------------------------------------
 # bounded-exhaustive enumeration
 # ---------------------------------------------------------------------------------------------
-THIS_LEAVES = [["this", ["a"], "attr"], ["this", ["b"], "item"], ["this", ["_", "c"], "attr"]]
+# (paths may also index into lists: this.v[0] - the key 0 is as good as any other)
+THIS_LEAVES = [["this", ["a"], "attr"], ["this", ["b"], "item"], ["this", ["_", "c"], "attr"], ["this", ["v", 0], "item"], ["this", ["v", 1], "item"]]
 OBJ_LEAVES = [["obj", []]]
 CONST_LEAVES = [["const", v] for v in (-2, 0, 1, 2, 3, True, "s", b"x", 1.5)]
 
 
 def contexts_small(vals=(-2, -1, 0, 1, 2, 3)):
     for a, b, c in itertools.product(vals, repeat=3):
-        yield {"a": a, "b": b, "_": {"c": c}}
+        yield {"a": a, "b": b, "_": {"c": c}, "v": [c, a]}
 
 
 def depth1_trees():
@@ -251,10 +252,10 @@ def leaves_for(root):
     if root == "this":
         paths = [(["a"], "attr"), (["a"], "item"), (["b"], "item"), (["_", "c"], "attr"), (["_", "c"], "item"),
                  (["_", "_", "d"], "attr"), (["_params", "k"], "attr"), (["s"], "attr"), (["by"], "attr"),
-                 (["f"], "attr"), (["flag"], "attr"), (["items"], "attr")]
+                 (["f"], "attr"), (["flag"], "attr"), (["items"], "attr"), (["items", 0], "item"), (["items", 1], "item"), (["items", -1], "item")]
         ph = st.sampled_from([["this", p, s] for p, s in paths])
     else:
-        ph = st.sampled_from([["obj", []], ["obj", []], ["obj", ["x"]]])
+        ph = st.sampled_from([["obj", []], ["obj", []], ["obj", ["x"]], ["obj", [0]], ["obj", [0, 1]]])
     consts = st.one_of(st.integers(-3, 6), st.booleans(), st.sampled_from(["", "s", "q"]), st.sampled_from([b"", b"x"]),
                        st.sampled_from([0.5, -1.0, 2.0])).map(lambda v: ["const", v])
     return ph, consts
@@ -280,7 +281,8 @@ def random_cases(draw):
     t = draw(tree_strategy(root))
     cx = draw(ctx_strategy)
     if root == "obj":
-        obj = draw(st.one_of(small_ints, st.fixed_dictionaries({"x": small_ints}), st.sampled_from(["s", b"x", 1.5])))
+        obj = draw(st.one_of(small_ints, st.fixed_dictionaries({"x": small_ints}), st.sampled_from(["s", b"x", 1.5]),
+                             st.lists(st.one_of(small_ints, st.lists(small_ints, min_size=2, max_size=2)), min_size=1, max_size=2)))
     else:
         obj = None
     return [t, cx, obj]
